@@ -78,6 +78,22 @@ CHECKS = {
          "other",
          "Layer (1) is bounded symbolic model checking. Layer (2) is class enumeration with concrete execution per class: a symbolic start year made every calendar query `unknown` (measured), so the solver does not decide this layer; it is kept because it is what detects iteration/carry/mask regressions.",
          "Trusted: the reference implementation harness/rfc5545.py (agrees with dateutil on 10 000 random rules apart from the recorded findings); the paper argument that rrule's behaviour is uniform within a calendar class. Shapes/starts outside the cell list, prefixes beyond K are outside.", "§5 C01", "chx"),
+ "C02": ("symbolic execution (CrossHair core + z3) of the real parser (_parse, _parse_numeric_token, _ymd.resolve_ymd, _build_naive, _build_tzaware) on ~30-70 text templates whose digits are solver variables; kernels resolve_ymd / convertyear / _adjust_ampm with symbolic values; path-exhaustive per template",
+         "model_checking",
+         "Bounded symbolic model checking: for each template every value of every digit-bearing field (valid calendar/clock values) is covered; z3 proves on each path that the parsed datetime equals the rendered fields, truncated to the rendered precision, aware with the rendered offset.",
+         "%s Month/weekday names are enumerated templates; free text, fractions > 6 digits, bytes/stream input are outside. Local zone names fixed to non-UTC names." % PT, "§5 C02", "chx"),
+ "C14": ("symbolic execution (CrossHair core + z3) of the real parser on ~300 templates whose digits are UNCONSTRAINED solver variables (field lengths 1..40 digits, all separators, am/pm, h/m/s labels, offsets) under the option combinations; any exception other than ParserError/OverflowError is a violation; the call is repeated inside the path to detect state",
+         "model_checking",
+         "Bounded symbolic model checking of exception-type totality and determinism over all digit values per template.",
+         PT + " Arbitrary Unicode/letters inside numbers and the tzinfos option are outside.", "§5 C14", "chx"),
+ "C15": ("symbolic execution (CrossHair core + z3): _build_naive on directly constructed results (symbolic field values and default), the zone-resolution cascade _build_tzaware/validate with a symbolic offset and a name vocabulary under every tzinfos form, GMT+h sign templates, and fuzzy / fuzzy_with_tokens agreement on C02 templates inside filler sentences",
+         "model_checking",
+         "Bounded symbolic model checking of the option semantics: clipping/weekday shift for all default month/day values, the documented zone precedence for all offsets, fuzzy variants agreeing with the plain parse for all digit values.",
+         PT + " Filler sentences and the name vocabulary are fixed lists.", "§5 C15", "chx"),
+ "C13": ("rule parameters (interval, count, one BY member) as solver variables pinned per path over C01's shape set; str(rule) -> rrulestr and an independently rendered RFC 5545 text in 6 spellings -> rrulestr compared with the keyword construction by normalised state and occurrence prefix; option / malformed-text cells",
+         "other",
+         "Configuration enumeration through the engine (the solver only enumerates the pinned parameter values; the text handling of rrulestr runs natively because string operations on symbolic numbers realise them): not a symbolic proof.",
+         "Trusted: state equality + 4-occurrence prefix as the meaning of 'same occurrences'; the independent renderer in harness/c13.py.", "§5 C13", "chx"),
 }
 NA = {}
 
